@@ -27,6 +27,7 @@ func countLines(path string) int {
 }
 
 func rerunStage(c *vh.Ctx, bin string, prop string) {
+	batchStyleSeed = c.Seed
 	n := c.N(3, 12)
 	done := 0
 	for k := 0; k < n; k++ {
